@@ -502,6 +502,48 @@ class World:
         m["urllib.parse"] = up
         m["urllib"] = types.SimpleNamespace(parse=up)
 
+        # --- glob / fnmatch over the abstract filesystem
+        import glob as _glob
+        import fnmatch as _fnmatch
+        import posixpath as _pp
+
+        def _expand(base, parts):
+            if not parts:
+                return [base]
+            head, rest = parts[0], parts[1:]
+            out = []
+            if head == "**":
+                raise Unsupported("recursive glob pattern")
+            if _glob.has_magic(head):
+                d = base or "."
+                if not fs.isdir(d):
+                    return []
+                for n in fs.listdir(d):
+                    if n.startswith(".") and not head.startswith("."):
+                        continue
+                    if _fnmatch.fnmatchcase(n, head):
+                        out.extend(_expand(_pp.join(base, n) if base else n, rest))
+            else:
+                cand = _pp.join(base, head) if base else head
+                if fs.exists(cand) or (rest and fs.isdir(cand)):
+                    out.extend(_expand(cand, rest))
+            return out
+
+        def glob_glob(pathname, *, recursive=False, root_dir=None, **kw):
+            if recursive or root_dir is not None:
+                raise Unsupported("glob(recursive/root_dir)")
+            pathname = _os.fspath(pathname)
+            parts = pathname.split("/")
+            base = ""
+            if pathname.startswith("/"):
+                base, parts = "/", parts[1:]
+            parts = [x for x in parts if x != ""] if not pathname.endswith("/") else [x for x in parts if x != ""]
+            return _expand(base, parts)
+
+        m["glob"] = types.SimpleNamespace(glob=glob_glob, iglob=lambda *a, **k: iter(glob_glob(*a, **k)), escape=_glob.escape,
+                                          has_magic=_glob.has_magic)
+        m["fnmatch"] = _fnmatch
+
         # --- configparser: a mapping with lower-cased keys and string values
         class ConfigParser:
             def __init__(self, *a, **k):
